@@ -437,6 +437,9 @@ def run(cx):
     inst_resync_guard(cx, "C01.q")
     from props.shared import window_pass_guard
     window_pass_guard(cx, "C01.r")
+    # submission order: the send queue is a FIFO that loses packets only at its front
+    from props.C05 import inst_send_queue_pops
+    inst_send_queue_pops(cx, "C01.s")
 
 
 SELFTEST = [
